@@ -415,32 +415,32 @@ func Dump(e *Expr) string {
 		return
 	}
 
-	var helper func(int16) (string, bool)
+	// helper writes the node at idx, lines of nested
+	// nodes are indented by the indent of their parents
+	var helper func(idx int16, indent string, sb *strings.Builder)
 
-	helper = func(idx int16) (string, bool) {
+	helper = func(idx int16, indent string, sb *strings.Builder) {
 		n := e.nodes[idx]
 		if n.childCnt == 0 {
-			return dumpLeafNode(n)
+			leaf, isLeaf := dumpLeafNode(n)
+			if isLeaf {
+				sb.WriteString(" ")
+			} else {
+				sb.WriteString("\n" + indent)
+			}
+			sb.WriteString(leaf)
+			return
 		}
 
-		var sb strings.Builder
+		if indent != "" {
+			sb.WriteString("\n" + indent)
+		}
 		sb.WriteString(fmt.Sprintf("(%v", n.value))
 
-		childIdxes := getChildIdxes(idx)
-
-		for _, cIdx := range childIdxes {
-			cc, isLeaf := helper(cIdx)
-			if isLeaf {
-				sb.WriteString(fmt.Sprintf(" %s", cc))
-				continue
-			}
-
-			for _, cs := range strings.Split(cc, "\n") {
-				sb.WriteString(fmt.Sprintf("\n  %s", cs))
-			}
+		for _, cIdx := range getChildIdxes(idx) {
+			helper(cIdx, indent+"  ", sb)
 		}
 		sb.WriteString(")")
-		return sb.String(), false
 	}
 
 	var rootIdx int16
@@ -450,8 +450,20 @@ func Dump(e *Expr) string {
 		}
 	}
 
-	res, _ := helper(rootIdx)
-	return res
+	if e.nodes[rootIdx].childCnt == 0 {
+		res, _ := dumpLeafNode(e.nodes[rootIdx])
+		return res
+	}
+
+	var sb strings.Builder
+	helper(rootIdx, "", &sb)
+	return sb.String()
+}
+
+// dumpStr prints a string literal the way the lexer reads it:
+// the raw text between double quotes, there are no escape sequences
+func dumpStr(s string) string {
+	return `"` + s + `"`
 }
 
 func dumpLeafNode(node *node) (string, bool) {
@@ -467,7 +479,7 @@ func dumpLeafNode(node *node) (string, bool) {
 	var res string
 	switch v := node.value.(type) {
 	case string:
-		res = strconv.Quote(v)
+		res = dumpStr(v)
 	case []string:
 		var sb strings.Builder
 		sb.WriteRune('(')
@@ -475,7 +487,7 @@ func dumpLeafNode(node *node) (string, bool) {
 			if idx != 0 {
 				sb.WriteRune(' ')
 			}
-			sb.WriteString(strconv.Quote(s))
+			sb.WriteString(dumpStr(s))
 		}
 		sb.WriteRune(')')
 		res = sb.String()
